@@ -134,6 +134,8 @@ class RunContext:
                 self.fired["abort_at_event"] = self.fired.get("abort_at_event", 0) + 1
                 raise backend.user_abort()
         if receiver == "obs":
+            if self.trackers:
+                rec.tracker_state = [t["plan"].get(t["id"], "results") for t in self.trackers]
             for hook in self.after_event:
                 hook(self, rec)
 
